@@ -154,25 +154,37 @@ def check_entry(ctx, it):
 
 
 def solve_items(ctx, items, limit, tag):
-    jobs, meta = [], []
-    for it in items:
-        for k in bc.KEYS:
-            for prune in (True, False):
-                jobs.append(dict(op="solve", game=enc(it["games"][k]), prune=prune, limit=limit))
-                meta.append((it, k, prune))
-    res = impl.run_cases(jobs, limit=limit, tag=tag)
-    for (it, k, prune), r in zip(meta, res):
-        ctx.evaluations += 1
-        if "ok" in r:
-            ctx.count("solve:ok")
-            if not r.get("intact", True):
-                ctx.notes.append("solve changed the description of %s" % k)
-        elif r.get("exc") == "ValueError" and r.get("msg") == NO_SOLUTION:
-            ctx.count("solve:no-solution")
-        else:
-            what = "timeout after %ss" % limit if r.get("timeout") else "%s: %s" % (r.get("exc"), r.get("msg"))
-            ctx.violation("%s (prune=%s) was neither solved nor reported unsolvable: %s" % (k, prune, what),
-                          bc.public(it["case"]), game=k, prune=prune)
+    """the batch runner's protocol (conditionalrewards.run_games): the pruned solve first; the unpruned solve
+    only when the pruned one succeeded (after 'no solution' run_games records 'Game not solved' and does not
+    call the solver again)"""
+    first = [(it, k) for it in items for k in bc.KEYS]
+    res1 = impl.run_cases([dict(op="solve", game=enc(it["games"][k]), prune=True, limit=limit) for it, k in first],
+                          limit=limit, tag=tag + "p")
+    second = []
+    for (it, k), r in zip(first, res1):
+        if _solve_outcome(ctx, it, k, True, r, limit):
+            second.append((it, k))
+    res2 = impl.run_cases([dict(op="solve", game=enc(it["games"][k]), prune=False, limit=limit) for it, k in second],
+                          limit=limit, tag=tag + "u")
+    for (it, k), r in zip(second, res2):
+        _solve_outcome(ctx, it, k, False, r, limit)
+
+
+def _solve_outcome(ctx, it, k, prune, r, limit):
+    ctx.evaluations += 1
+    mode = "pruned" if prune else "unpruned"
+    if "ok" in r:
+        ctx.count("solve-%s:ok" % mode)
+        if not r.get("intact", True):
+            ctx.notes.append("solve changed the description of %s" % k)
+        return True
+    if r.get("exc") == "ValueError" and r.get("msg") == NO_SOLUTION:
+        ctx.count("solve-%s:no-solution" % mode)
+        return False
+    what = "timeout after %ss" % limit if r.get("timeout") else "%s: %s" % (r.get("exc"), r.get("msg"))
+    ctx.violation("%s (%s) was neither solved nor reported unsolvable: %s" % (k, mode, what),
+                  bc.public(it["case"]), game=k, prune=prune)
+    return False
 
 
 def run(ctx):
